@@ -710,6 +710,54 @@ func (s *DB) getHistoricRootsAndNodes(
 			}
 		}
 	}
+	// Nodes are content-addressed, so a node dropped between a historic
+	// version and its successor can be in use again later (insert then
+	// delete, a merge that restores earlier content, ...). Keep everything
+	// the current tree and the versions that stay still refer to.
+	keepLinks := func(m *mast.Mast) error {
+		return m.DiffLinks(ctx, nil, func(removed bool, link interface{}) (bool, error) {
+			if ls, ok := link.(string); ok {
+				delete(candidateBlocks, ls)
+			}
+			return true, nil
+		})
+	}
+	if len(candidateBlocks) > 0 {
+		if err := keepLinks(s.crdt.Mast); err != nil {
+			return nil, nil, fmt.Errorf("walk current version: %w", err)
+		}
+		retainedRoots := map[string]*crdt.Root{}
+		for name, root := range rootCacheByName {
+			if _, deleting := candidateRoots[name]; !deleting {
+				retainedRoots[name] = root
+			}
+		}
+		// Versions other writers committed and nobody merged yet are not
+		// ancestors of this handle, but share nodes with them.
+		currentNames, err := s.listRoots(ctx)
+		if err != nil {
+			return nil, nil, fmt.Errorf("list current versions: %w", err)
+		}
+		for _, name := range currentNames {
+			root, _, err := loadRootFromAny(ctx, []mast.Persist{s.root, s.merged}, name)
+			if err != nil {
+				return nil, nil, fmt.Errorf("load current version %s: %w", name, err)
+			}
+			if root != nil {
+				retainedRoots[name] = root
+			}
+		}
+		for _, name := range verifKeys(retainedRoots) {
+			name := name
+			retained, err := crdt.Load(ctx, s.crdt.Config, &name, *retainedRoots[name])
+			if err != nil {
+				return nil, nil, fmt.Errorf("load retained version %s: %w", name, err)
+			}
+			if err := keepLinks(retained.Mast); err != nil {
+				return nil, nil, fmt.Errorf("walk retained version %s: %w", name, err)
+			}
+		}
+	}
 	nodes = make([]string, 0, len(candidateBlocks))
 	for _, k := range verifKeys(candidateBlocks) {
 		nodes = append(nodes, k)
